@@ -219,7 +219,7 @@ fn invariants(db: &FixtureDatabase) -> Vec<String> {
     bad
 }
 
-fn queries(db: &FixtureDatabase) -> Value {
+fn queries(db: &FixtureDatabase, only_files: Option<Vec<PathBuf>>) -> Value {
     // goto for every recorded usage (at its first column)
     let mut goto = Vec::new();
     let mut usage_list: Vec<FixtureUsage> = Vec::new();
@@ -262,7 +262,10 @@ fn queries(db: &FixtureDatabase) -> Value {
     }
     // available fixtures per file
     let mut avail = Map::new();
-    let files = all_files(db);
+    let files: BTreeSet<PathBuf> = match only_files {
+        Some(v) => v.into_iter().collect(),
+        None => all_files(db),
+    };
     for f in &files {
         let v: Vec<Value> = db
             .get_available_fixtures(f)
@@ -399,7 +402,10 @@ fn exec(dbs: &Mutex<Dbs>, cmd: &Value) -> Result<Value, String> {
         }
         "queries" => {
             let db = get_db(&dbs.lock().unwrap(), cmd)?;
-            Ok(queries(&db))
+            let files = cmd.get("files").and_then(|v| v.as_array()).map(|a| {
+                a.iter().filter_map(|x| x.as_str()).map(PathBuf::from).collect::<Vec<_>>()
+            });
+            Ok(queries(&db, files))
         }
         "snapshot" => {
             let db = get_db(&dbs.lock().unwrap(), cmd)?;
@@ -407,10 +413,10 @@ fn exec(dbs: &Mutex<Dbs>, cmd: &Value) -> Result<Value, String> {
             let order = cmd.get("raw_first").and_then(|v| v.as_bool()).unwrap_or(true);
             if order {
                 let r = raw_maps(&db);
-                let q = queries(&db);
+                let q = queries(&db, None);
                 Ok(json!({"raw": r, "queries": q, "invariants": invariants(&db)}))
             } else {
-                let q = queries(&db);
+                let q = queries(&db, None);
                 let r = raw_maps(&db);
                 Ok(json!({"raw": r, "queries": q, "invariants": invariants(&db)}))
             }
